@@ -8,9 +8,8 @@ Enumerated space (a union of full products, each enumerated completely; see `bui
   (start, unit) in  STARTS x UNITS  +  (omitted start, omitted unit -> documented defaults)
   list helpers      x all lists of length 1..5 over the value alphabet
   growth helpers    x spans (all but 400 d) x parameter menus
-  frequency helper  x all 7 spans x {daily x volumes x HOURS_FULL,
-                                     weekly / monthly / yearly x day subsets x HOURS_SMALL}
-  daily-volume      x all 7 spans x volumes x (HOURS_FULL without None)
+  frequency helper  x all 7 spans x {daily x HOURS_FULL, weekly / monthly / yearly x day subsets x HOURS_SMALL}
+  daily-volume      x all 7 spans x volumes x HOURS_DAILY_VOLUME
 
 Readings (DESIGN §5 C20): list and growth helpers must have exactly len(list) / floor(span in hours) values; the
 frequency-based helpers must cover the span (ceil(span_h) <= n <= floor(span_h) + 1: the statement does not fix
@@ -81,11 +80,12 @@ def menus(tier):
             "monthly": [None] + subsets(MONTH_DAYS[tk], kd),
             "yearly": [None] + subsets(YEAR_DAYS[tk], kd),
         },
-        "hours_small": [None] + subsets([0, 9, 13, 22, 23] if thorough else [0, 22], 3),
+        "hours_small": [None] + subsets([0, 13, 22, 23] if thorough else [0, 22], 3),
         "hours_full": [None] + (subsets(range(24), 3) if thorough
                                 else subsets(range(24), 1) + subsets([0, 9, 13, 22, 23], 3, 2)),
+        "hours_daily_volume": (subsets(range(24), 2) + subsets([0, 9, 13, 22, 23], 3, 3) if thorough
+                               else subsets(range(24), 1) + subsets([0, 9, 13, 22, 23], 3, 2)),
         "freq_volume": 2.5,
-        "daily_freq_volumes": [2.5, 100] if thorough else [2.5],
         "daily_volumes": [100, 7.0],
     }
     return m
@@ -114,15 +114,14 @@ def build_tasks(tier):
         for ch in chunks(m["dfluct"], 15):
             tasks.append(dict(base, kind="growth", helper="daily_fluct_hourly_values", spans=SPANS_GROWTH, items=ch))
         fb = dict(base, kind="freq", helper="create_hourly_usage_from_frequency", spans=SPANS_ALL)
-        for vol in m["daily_freq_volumes"]:
-            for ch in chunks([[None, h] for h in m["hours_full"]], 16):
-                tasks.append(dict(fb, frequency="daily", volume=vol, items=ch))
+        for ch in chunks([[None, h] for h in m["hours_full"]], 16):
+            tasks.append(dict(fb, frequency="daily", volume=m["freq_volume"], items=ch))
         for f in ("weekly", "monthly", "yearly"):
             combos = [[d, h] for d in m["days"][f] for h in m["hours_small"]]
             for ch in chunks(combos, 16):
                 tasks.append(dict(fb, frequency=f, volume=m["freq_volume"], items=ch))
         for vol in m["daily_volumes"]:
-            for ch in chunks([h for h in m["hours_full"] if h is not None], 16):
+            for ch in chunks(m["hours_daily_volume"], 16):
                 tasks.append(dict(base, kind="dailyvol",
                                   helper="create_hourly_usage_from_daily_volume_and_list_of_hours",
                                   spans=SPANS_ALL, volume=vol, items=ch))
@@ -513,10 +512,10 @@ def main(tier):
             "active_day_subsets": {f: len(v) for f, v in m["days"].items()},
             "active_day_menus": f"weekly: all subsets of 0..6; monthly: of {MONTH_DAYS[tk]}; yearly: of "
                                 f"{YEAR_DAYS[tk]}; size <= {3 if tier == 'thorough' else 2}, plus None (default)",
-            "hour_subsets_daily_and_daily_volume": len(m["hours_full"]),
+            "hour_subsets_daily_frequency": len(m["hours_full"]),
+            "hour_subsets_daily_volume_helper": len(m["hours_daily_volume"]),
             "hour_subsets_weekly_monthly_yearly": len(m["hours_small"]),
-            "volumes": {"daily frequency": m["daily_freq_volumes"], "weekly/monthly/yearly": m["freq_volume"],
-                        "daily volume helper": m["daily_volumes"]},
+            "volumes": {"frequency helper": m["freq_volume"], "daily volume helper": m["daily_volumes"]},
         },
         "explanation": "every case is one call of the real helper; index, unit and every hourly value are compared "
                        "with a reference computed by stepping a datetime by one hour",
